@@ -1655,6 +1655,11 @@ class FortranReaderBase:
             )
             logging.getLogger(__name__).error(message)
         line_content = "".join(lines).strip()
+        if name is None and len(lines) > 1:
+            # The construct name (or the ':' that follows it) may be on a
+            # continuation line, in which case it was not found when the
+            # first physical line was examined.
+            name, line_content = extract_construct_name(line_content)
         if line_content:
             return self.line_item(line_content, startlineno, endlineno, label, name)
         if label is not None:
